@@ -271,7 +271,7 @@ impl Prop for C16 {
         tier.pick(700, 4000)
     }
     fn random_cases(&self, tier: Tier) -> usize {
-        tier.pick(300, 20_000)
+        tier.pick(300, 8_000)
     }
     fn enum_prefixes(&self, tier: Tier) -> Vec<Vec<u32>> {
         let mut v = Vec::new();
